@@ -43,6 +43,16 @@ def _desc(n):
     return type(n).__name__
 
 
+_GROUPS = [(ast.Mult, ast.Div, ast.FloorDiv, ast.Mod, ast.MatMult), (ast.Add, ast.Sub), (ast.LShift, ast.RShift)]
+
+
+def _prec_group(op):
+    for i, g in enumerate(_GROUPS):
+        if isinstance(op, g):
+            return i
+    return type(op).__name__
+
+
 def _value(n):
     v = eval(compile(ast.fix_missing_locations(ast.Expression(body=n)), "<loc>", "eval"), dict(sigs.prelude_ns()))
     return repr(v) if not isinstance(v, float) else v.hex()
@@ -63,7 +73,7 @@ def locate(s, e):
         return "%s->%s" % (_desc(s), _desc(e))
     if isinstance(s, ast.BinOp):
         shape = lambda n: (isinstance(n.left, ast.BinOp), isinstance(n.right, ast.BinOp))
-        if shape(s) != shape(e) and type(s.op) is type(e.op):
+        if shape(s) != shape(e) and _prec_group(s.op) == _prec_group(e.op):
             return "%s:regrouped" % _desc(s)
     if isinstance(s, ast.IfExp):
         shape = lambda n: tuple(isinstance(x, ast.IfExp) for x in (n.test, n.body, n.orelse))
@@ -91,6 +101,9 @@ def locate(s, e):
 
 
 def astdiff(src_text, emb_text):
+    if emb_text.count("...") > src_text.count("..."):
+        # the writer's placeholder for a node kind it cannot print
+        return "placeholder-ellipsis"
     try:
         return locate(ast.parse(src_text, mode="eval").body, ast.parse(emb_text, mode="eval").body)
     except Exception as e:
@@ -309,11 +322,45 @@ def run(ctx):
                        "annotation_typing=False; annotations not compared"]
 
 
+_REPLAY_CACHE = {}
+
+
+def _committed_batch(ctx):
+    """Run all committed replay cases in one module per cell (one build instead of one per finding)."""
+    if _REPLAY_CACHE:
+        return
+    _REPLAY_CACHE["_done"] = True
+    groups = {}
+    for path, rep in harness.committed_replays(PID):
+        case = rep.get("case", {})
+        if isinstance(case.get("items"), list) and len(case["items"]) == 1 and "cell" in case:
+            groups.setdefault(case["cell"], []).append(case["items"][0])
+    for cell, items in sorted(groups.items()):
+        uids = [it["meta"]["uid"] for it in items]
+        if len(set(uids)) != len(uids):
+            continue
+        part = harness.Part()
+        outdir = os.path.join(ctx.work, "c25replaybatch")
+        run_cell(items, "c25rb_" + cybuild.sha12(cell)[:6], outdir, cell, part, record=False)
+        hit = {}
+        for bucket, case, what in part.violations:
+            for it in case.get("items", []):
+                hit.setdefault(it["meta"]["uid"], what)
+        for it in items:
+            _REPLAY_CACHE[(cell, it["src"])] = hit.get(it["meta"]["uid"])
+
+
 def replay(ctx, case):
     tree.activate_view()
+    if len(case.get("items", [])) == 1:
+        _committed_batch(ctx)
+        key = (case["cell"], case["items"][0]["src"])
+        if key in _REPLAY_CACHE:
+            what = _REPLAY_CACHE[key]
+            return (what is not None), (what or "agrees")
     part = harness.Part()
     outdir = os.path.join(ctx.work, "c25replay")
-    viol = run_cell(case["items"], "c25r_" + cybuild.sha12(repr(case))[:8], outdir, case["cell"], part, record=False)
+    run_cell(case["items"], "c25r_" + cybuild.sha12(repr(case))[:8], outdir, case["cell"], part, record=False)
     if part.violations:
         return True, part.violations[0][2]
     return False, "agrees"
